@@ -10,12 +10,21 @@ def generate(L):
     chars = re.findall(r"path\.contains\(" + L.CHR_LIT + r"\)", nq)
     if not chars:
         raise L.GenError("needs_quoting: no path.contains('c') tests found")
-    # every disjunct of the body must be one of those tests, otherwise we do not understand it
+    # every disjunct of the body must be one of the shapes we understand
     body = nq[nq.index("{") + 1:nq.rindex("}")]
     rest = re.sub(r"path\.contains\(" + L.CHR_LIT + r"\)", "", body)
+    q_div = re.findall(r"path\s*==\s*" + L.STR_LIT, rest)
+    rest = re.sub(r"path\s*==\s*" + L.STR_LIT, "", rest)
+    q_dq = len(re.findall(r"path\.starts_with\('\"'\)", rest))
+    rest = re.sub(r"path\.starts_with\('\"'\)", "", rest)
+    q_trim = len(re.findall(r"path\s*!=\s*path\.trim_end\(\)", rest))
+    rest = re.sub(r"path\s*!=\s*path\.trim_end\(\)", "", rest)
     if re.sub(r"[\s|]", "", rest) != "":
         raise L.GenError(f"needs_quoting: unrecognised shape: {rest.strip()!r}")
+    if len(q_div) > 1 or q_dq > 1 or q_trim > 1:
+        raise L.GenError("needs_quoting: repeated disjunct")
     quoting = [L.unescape(c)[0] for c in chars]
+    quoting_literal = L.unescape(q_div[0]) if q_div else None
 
     ser = L.find_fn(src, "serialize_to_string", rel)
     pushes = re.findall(r"output\.push_str\(" + L.STR_LIT + r"\)", ser)
@@ -50,6 +59,17 @@ def generate(L):
     m = re.search(r"entry_line\.find\(" + L.CHR_LIT + r"\)", pa)
     if not m or L.unescape(m.group(1)) != [32]:
         raise L.GenError("parse_attestation_section: hash separator is not ' '")
+    # the branch taken when an entry line has no space after the hash
+    m = re.search(r"if let Some\(space_pos\) = entry_line\.find\(' '\)(.*)", pa, re.S)
+    if not m:
+        raise L.GenError("parse_attestation_section: `if let Some(space_pos) = entry_line.find(' ')` not found")
+    tail = m.group(1)
+    if 'return Err(format!("Invalid attestation entry format' in tail:
+        no_ranges_ok = False
+    elif re.search(r"\}\s*else\s*\{[^{}]*AttestationEntry::new\(entry_line\.to_string\(\),\s*Vec::new\(\)\)", tail):
+        no_ranges_ok = True
+    else:
+        raise L.GenError("parse_attestation_section: the no-space branch of an entry line has an unknown shape")
     trims = "line.trim_end()" in pa
     quoted_test = bool(re.search(r"line\.starts_with\('\"'\)\s*&&\s*line\.ends_with\('\"'\)", pa))
     m = re.search(r"if\s+line\.len\(\)\s*>=\s*(\d+)\s*&&\s*line\.starts_with\('\"'\)", pa)
@@ -71,6 +91,10 @@ def generate(L):
 
     return "\n".join([
         "Definition quoting_chars : list N := " + L.coq_str(quoting) + ".",
+        "Definition quoting_literal : option (list N) := " + ("Some " + L.coq_str(quoting_literal) if quoting_literal is not None else "None") + ".",
+        "Definition quoting_lead_dq : bool := " + L.coq_bool(q_dq == 1) + ".",
+        "Definition quoting_trailing_ws : bool := " + L.coq_bool(q_trim == 1) + ".",
+        "Definition reader_entry_without_ranges : bool := " + L.coq_bool(no_ranges_ok) + ".",
         "Definition divider : list N := " + L.coq_str(divider_r) + ".",
         "Definition divider_written : list N := " + L.coq_str(divider_w) + ".",
         "Definition entry_indent : list N := " + L.coq_str(indent_w) + ".",
